@@ -430,8 +430,10 @@ func TestBoundedC07Tasks(t *testing.T) {
 				task.Schedule(due)
 			}
 		}
+		var released time.Time
 		if sc.busy {
 			time.Sleep(100 * time.Millisecond)
+			released = time.Now()
 			close(release)
 		}
 		if sc.cancel {
@@ -455,6 +457,11 @@ func TestBoundedC07Tasks(t *testing.T) {
 		}
 		if startCount != 1 {
 			fail(fmt.Sprintf("%s: ran %d times", desc, startCount))
+		}
+		if sc.busy && started.Before(released) {
+			// a task whose time has come waits in the queue like the others (it may go ahead only
+			// once its maximum delay has passed, one minute by default)
+			fail(fmt.Sprintf("%s: started %s before the task occupying the queue returned", desc, released.Sub(started)))
 		}
 		if second != nil {
 			if secondStarted.IsZero() {
